@@ -272,6 +272,7 @@ func (t *tcpHandler) recv(connSt *connInfo) {
 				pkg := make([]byte, pkgLen)
 				copy(pkg, currBuffer[:pkgLen])
 				currBuffer = currBuffer[pkgLen:]
+				verifC12BeforeCount(connSt)
 				t.handleConn(connSt, pkg)
 				if len(currBuffer) > 0 {
 					continue
